@@ -235,7 +235,16 @@ def correspond(res):
             if hp.pairing2d(x, y) != z or x < 0 or y < 0:
                 viol("HyperbolicPairing: pairing2d(projection2d(z)) != z", kind="hyp", z=z, got=[x, y])
                 break
-    for (x, y) in [(a, b) for a in range(60) for b in range(60)] + [(rng.randrange(0, 3000), rng.randrange(0, 3000)) for _ in range(200)]:
+    # products of two large primes: sympy.factorint returns such factors in discovery order, not sorted, so any code
+    # that relies on the dict order of the factorisation breaks only there (first at n = 3613 * 4051)
+    from sympy import primerange
+    big_primes = list(primerange(1000, 6500))
+    prime_pairs = []
+    for _ in range(30 if tier == "quick" else 300):
+        pa, pb = rng.choice(big_primes), rng.choice(big_primes)
+        prime_pairs += [(pa - 1, pb - 1), (pb - 1, pa - 1)]
+    prime_pairs += [(3612, 4050), (4050, 3612)]
+    for (x, y) in [(a, b) for a in range(60) for b in range(60)] + [(rng.randrange(0, 3000), rng.randrange(0, 3000)) for _ in range(200)] + prime_pairs:
         z = hp.pairing2d(x, y)
         res.count(("hyp-p", x, y), nontrivial=(x, y) != (0, 0), kind="hyperbolic pairing2d")
         if tuple(int(v) for v in hp.projection2d(z)) != (x, y):
